@@ -211,6 +211,30 @@ func (f *fqInst) evalDirectT(prog string, to time.Duration) (res Obs) {
 	return res
 }
 
+// evalDirectRaw: the output values themselves (used by -facts to read generated sources)
+func (f *fqInst) evalDirectRaw(prog string) (vs []any) {
+	_, _ = hlib.Catch(func() string {
+		ctx, cancel := context.WithTimeout(context.Background(), longTimeout)
+		defer cancel()
+		it, err := f.i.Eval(ctx, nil, prog, interp.EvalOpts{})
+		if err != nil {
+			return ""
+		}
+		for {
+			v, ok := it.Next()
+			if !ok {
+				return ""
+			}
+			if _, isErr := v.(error); isErr {
+				vs = nil
+				return ""
+			}
+			vs = append(vs, v)
+		}
+	})
+	return vs
+}
+
 // runCLI = `fq -nc --argjson in V P` through interp.Main (argument parsing, the query rewrite of
 // eval.jq, display with the colorjson encoder). Returns the printed lines and the exit code.
 func runCLI(prog string, inJSON string) (lines []string, exit int, stderr string, panicMsg string) {
